@@ -215,12 +215,35 @@ def replay(path: str) -> int:
 
     _init_jax()
     prop = props.get(v["property"])
+    from jsim.core import ConstructionRaised
+
+    try:
+        return _replay(prop, v, path)
+    except ConstructionRaised as ce:
+        if str(v.get("class", "")).startswith("construction_raised"):
+            print(f"VIOLATION property={v['property']} replay={path}")
+            print(f"  env={v['env']} config={v['config']['id']} monitor=execution class=construction_raised:{type(ce.orig).__name__}: {str(ce.orig)[:300]}")
+            return 1
+        raise
+
+
+def _replay(prop: Any, v: Dict[str, Any], path: str) -> int:
+    if str(v.get("class", "")).startswith("construction_raised"):
+        # the recorded violation is the construction itself: build the system the way the task did
+        if prop.custom:
+            prop.replay(dict(v, ops=v.get("ops") or [], construction_only=True), path)
+        else:
+            from jsim.core import Sys, construct
+
+            construct(Sys, envs.get(v["env"]), v["config"])
+        print(f"replay: no violation of class {v['monitor']}/{v['class']} reproduced from {path}")
+        return 0
     if prop.custom:
         return prop.replay(v, path)
-    from jsim.core import Sys, replay_violates
+    from jsim.core import Sys, construct, replay_violates
 
     ad = envs.get(v["env"])
-    sysm = Sys(ad, v["config"])
+    sysm = construct(Sys, ad, v["config"])
     monitors = [m for m in prop.monitors(ad) if m.applies(ad)]
     got = replay_violates(sysm, v["property"], monitors, v["ops"], (v["monitor"], v["class"]))
     if got is None:
